@@ -1510,6 +1510,7 @@ fn build_names() -> Vec<Vec<u8>> {
     for i in 0..LRU_FILLERS {
         v.push(wire_of(&[format!("f{i:02}").as_bytes()]));
     }
+    // (the small-alphabet family is appended at the end, see below)
     // names of the bit-5 family (indices FOLD0 ..)
     assert_eq!(v.len(), FOLD0);
     v.push(wire_of(&[b"example"]));
@@ -1517,7 +1518,45 @@ fn build_names() -> Vec<Vec<u8>> {
         v.push(wire_of(&[&[b'a', b], b"example"]));
         v.push(wire_of(&[b"www", &[b'a', b], b"example"]));
     }
+    // names of the small-alphabet family (indices SM0 ..): every name of
+    // 1..3 labels over SM_LABELS, numbered so that the names over the first
+    // k labels can be addressed for any k
+    assert_eq!(v.len(), SM0);
+    for n in sm_names(SM_LABELS.len()) {
+        v.push(n);
+    }
     v
+}
+
+/// Small-alphabet family: one-octet labels; 'A' is the case variant of 'a'.
+const SM_LABELS: [u8; 5] = [b'a', b'b', b'A', b'c', b'x'];
+const SM0: usize = FOLD0 + 1 + 2 * FOLD_BYTES.len();
+
+/// All names of 1..3 labels over the first `k` labels of SM_LABELS, in a fixed order.
+fn sm_label_lists(k: usize) -> Vec<Vec<u8>> {
+    let mut v = Vec::new();
+    for d in 1..=3 {
+        for i in 0..pow(k, d) {
+            let mut l = Vec::new();
+            nth_string(&SM_LABELS[..k], d, i, &mut l);
+            v.push(l);
+        }
+    }
+    v
+}
+fn sm_names(k: usize) -> Vec<Vec<u8>> {
+    sm_label_lists(k).iter().map(|l| wire_of(&l.iter().map(std::slice::from_ref).collect::<Vec<&[u8]>>())).collect()
+}
+/// Index (into the global name table) of each name over the first `k` labels.
+fn sm_indices(k: usize) -> Vec<usize> {
+    let all = sm_label_lists(SM_LABELS.len());
+    sm_label_lists(k).iter().map(|l| SM0 + all.iter().position(|x| x == l).expect("name")).collect()
+}
+
+fn run_sm_case(ctx: &Ctx, stats: &Stats, bs: &BuildStats, wd: &Watchdog, seq: &[usize], names: &[Vec<u8>]) {
+    let ops: Vec<Op> = seq.iter().map(|n| Op::R(1, *n, Rd::A)).collect();
+    let key = seq.iter().fold(0x7A3C19D5E6B8F021u64, |h, i| (h ^ (*i as u64 + 1)).wrapping_mul(0x100000001b3));
+    run_build_ops(ctx, stats, bs, wd, &ops, &json!({"part": "build-small", "names": seq}), key, names);
 }
 
 /// Bit-5 family: octets together with their partner `b ^ 0x20`: control /
@@ -1803,13 +1842,40 @@ fn push_rec<N: domain::new::base::build::BuildInMessage>(b: &mut NewBuilder<'_, 
 /// otherwise as &Name (compress_name); names in RDATA are always &Name.
 fn run_new(ops: &[Op], names: &[Vec<u8>], rev_owner: bool) -> BuildOut {
     let mut out = BuildOut::default();
-    let mut buffer = vec![0u8; 24 * 1024];
+    let pads = ops.iter().any(|o| matches!(o, Op::PadTo(_)));
+    let mut buffer = vec![0u8; if pads { 24 * 1024 } else { 12 + 300 * ops.len().max(1) }];
     let mut compressor = NameCompressor::new();
     let mut b = NewBuilder::new(&mut buffer, &mut compressor, U16::new(0), HeaderFlags::default());
     let mut counts = [0usize; 4];
-    let pad_store = vec![0xEEu8; 17000];
-    let nbufs: Vec<NameBuf> = names.iter().map(|w| NameBuf::parse_bytes(w).expect("valid name")).collect();
-    let revs: Vec<RevNameBuf> = names.iter().map(|w| RevNameBuf::parse_bytes(w).expect("valid name")).collect();
+    let pad_store = vec![0xEEu8; if pads { 17000 } else { 0 }];
+    // the names are handed to the builder as NameBuf / RevNameBuf parsed from
+    // their (valid, uncompressed) wire form; a refusal is the codec's fault
+    static PARSED: std::sync::OnceLock<Result<(Vec<NameBuf>, Vec<RevNameBuf>), String>> = std::sync::OnceLock::new();
+    let parsed = PARSED.get_or_init(|| {
+        let mut a = Vec::new();
+        let mut r = Vec::new();
+        for (i, w) in names.iter().enumerate() {
+            match (guard(|| NameBuf::parse_bytes(w)), guard(|| RevNameBuf::parse_bytes(w))) {
+                (Ok(Ok(x)), Ok(Ok(y))) => {
+                    a.push(x);
+                    r.push(y);
+                }
+                (x, _) => return Err(format!("new-codec|parse_bytes-refuses-a-valid-uncompressed-name|{}-octets|{}", w.len(), if matches!(x, Ok(Ok(_))) { "RevNameBuf" } else { "NameBuf" })).map_err(|e: String| {
+                    let _ = i;
+                    e
+                }),
+            }
+        }
+        Ok((a, r))
+    });
+    let (nbufs, revs) = match parsed {
+        Ok(x) => x,
+        Err(e) => {
+            drop(b);
+            out.errs.push(e.clone());
+            return out;
+        }
+    };
     let root_n = NameBuf::parse_bytes(&[0]).expect("root");
     let root_r = RevNameBuf::parse_bytes(&[0]).expect("root");
     for &op in ops {
@@ -2001,7 +2067,9 @@ struct BuildStats {
 
 fn cause_of(ops: &[Op], len: usize) -> &'static str {
     let uses = |n: usize| ops.iter().any(|o| matches!(o, Op::Q(x) | Op::R(_, x, _) if *x == n) || matches!(o, Op::R(_, _, Rd::Ns(x) | Rd::Cname(x)) if *x == n));
-    if ops.iter().any(|o| matches!(o, Op::R(_, x, _) if *x >= FOLD0) || matches!(o, Op::R(_, _, Rd::Ns(x)) if *x > FOLD0)) {
+    if ops.iter().any(|o| matches!(o, Op::R(_, x, _) if *x >= SM0)) {
+        "names-over-a-small-label-alphabet"
+    } else if ops.iter().any(|o| matches!(o, Op::R(_, x, _) if *x >= FOLD0) || matches!(o, Op::R(_, _, Rd::Ns(x)) if *x > FOLD0)) {
         "names-differing-in-bit-0x20-of-an-octet"
     } else if ops.len() > 32 {
         "more-than-32-names-in-message"
@@ -2197,7 +2265,13 @@ fn main() {
         let v: Value = serde_json::from_str(&std::fs::read_to_string(path).expect("replay file")).expect("json");
         let case = &v["case"];
         println!("replaying {}", v["signature"]);
-        if case["part"].as_str() == Some("build-fold") {
+        if case["part"].as_str() == Some("build-small") {
+            let seq: Vec<usize> = case["names"].as_array().expect("names").iter().map(|x| x.as_u64().unwrap() as usize).collect();
+            for n in &seq {
+                println!("  answer A record owned by {}", name_text(&names, *n));
+            }
+            run_sm_case(&ctx, &stats, &bs, &wd, &seq, &names);
+        } else if case["part"].as_str() == Some("build-fold") {
             let items: Vec<usize> = case["items"].as_array().expect("items").iter().map(|x| x.as_u64().unwrap() as usize).collect();
             for o in fold_ops(&items) {
                 println!("  {}", op_desc(o, &names));
@@ -2379,6 +2453,19 @@ fn main() {
             }
         }
     }
+    // small-alphabet family: every sequence of 2..len names over every name
+    // of 1..3 labels over the first k labels
+    let sm_bounds: &[(usize, usize)] = if quick { &[(4, 3)] } else { &[(3, 4), (5, 3)] };
+    for &(k, maxlen) in sm_bounds {
+        let idx = sm_indices(k);
+        for d in 2..=maxlen {
+            (0..pow(idx.len(), d)).into_par_iter().for_each(|i| {
+                let mut seq = Vec::new();
+                nth_string(&idx, d, i, &mut seq);
+                run_sm_case(&ctx, &stats, &bs, &wd, &seq, &names);
+            });
+        }
+    }
     // bit-5 family: every sequence of 1..fold_len items
     let fold_len = if quick { 2 } else { 3 };
     let fold_alphabet: Vec<usize> = (0..FOLD_BYTES.len() * 4).collect();
@@ -2415,7 +2502,7 @@ fn main() {
         "distinct_nontrivial": stats.nontrivial.load(AO::Relaxed).min(stats.distinct_count()),
         "rule": "Part 1: one case = one message (C01 grammar: header variants x 1..2 items (quick) / 1..3 items (thorough) from per-field menus with pointers to every landmark; every truncation of short one-item messages; every raw body over 9 symbols to raw_len after 4 headers) with every unit (compressed name in 4 views + UnparsedName, flat name in 3 views, question and record in 2 views each, character string) parsed at every landmark offset (raw: every offset) and the whole message parsed through the iterators / low-level API / MessageParser by both codecs; non-trivial = both codecs accepted a name containing a compression pointer, a record with non-empty RDATA, or at least one whole-message item; distinct = distinct message octets. Part 2: one case = (operation sequence, builder); non-trivial = the built message contains at least one compression pointer (independent reader); distinct = distinct (sequence, builder)",
         "exhaustive": true,
-        "bound": {"parse_items": if quick { 2 } else { 3 }, "raw_len": rawlen, "raw_alphabet": raw, "build_depth": depth, "build_alphabet": OPS.iter().map(|o| op_desc(*o, &names)).collect::<Vec<_>>(), "build_long": format!("head: every sequence of 0..2 of {{alpha., c.alpha., beta., c.beta.}}; then k = 0..{} distinct unrelated one-label names; tail: every sequence of 1..{} of the four; all answer A records", LRU_FILLERS - 1, tail_max), "build_bit5": format!("every sequence of 1..{} items over {{a<b>.example., www.a<b>.example. : b in {:02x?}}} x {{owner of an A record, target of an NS record owned by example.}}", fold_len, FOLD_BYTES)},
+        "bound": {"parse_items": if quick { 2 } else { 3 }, "raw_len": rawlen, "raw_alphabet": raw, "build_depth": depth, "build_alphabet": OPS.iter().map(|o| op_desc(*o, &names)).collect::<Vec<_>>(), "build_long": format!("head: every sequence of 0..2 of {{alpha., c.alpha., beta., c.beta.}}; then k = 0..{} distinct unrelated one-label names; tail: every sequence of 1..{} of the four; all answer A records", LRU_FILLERS - 1, tail_max), "build_small_alphabet": format!("every sequence of 2..len names (answer A records owned by the name) over all names of 1..3 one-octet labels over the first k of {:?}; (k, len) = {:?}", SM_LABELS.iter().map(|b| *b as char).collect::<Vec<_>>(), sm_bounds), "build_bit5": format!("every sequence of 1..{} items over {{a<b>.example., www.a<b>.example. : b in {:02x?}}} x {{owner of an A record, target of an NS record owned by example.}}", fold_len, FOLD_BYTES)},
         "parse_cases": parse_evals,
         "unit_view_outcomes": Value::Object(hist),
         "distinct_unit_outcomes_observed": outcomes_seen,
